@@ -30,6 +30,15 @@ class C02(DevProp):
                 down.discard(e["code"])
         return False
 
+    def perturb(self, case, res):
+        # falsify: the first Note Off goes to the neighbouring pitch
+        for st in res["steps"]:
+            for m in st["midi"]:
+                if m[0] & 0xF0 == 0x80 and len(st["midi"]) < 100:
+                    m[1] = (m[1] + 1) % 128
+                    return res
+        return None
+
     def gen(self, rng, tier):
         cases = c01.templates(rng)
         for i in range(260 if tier == "quick" else 8000):
